@@ -489,6 +489,11 @@ func init() {
 			}
 			nReal := tierN(c.Tier, 700, 14000)
 			if c.Idx >= nReal {
+				if c.Idx%12 == 4 {
+					// a start delay works on a restarted runner as on a fresh one, whatever the store held (interrupted jobs
+					// occupy nothing)
+					return simpleCase(c, drv.PreparedStoreCase(c.Seed, c.TmpDir), 100)
+				}
 				o := admissionOpts(c.Idx)
 				all := gen.AllClasses()
 				var delayed []gen.ConfigClass
